@@ -259,6 +259,30 @@ def t_cyc(acc, maxlen, front, limit, upto=None):
         GambaTools.pda_epsilon_closure_max_iterations = old
 
 
+def t_long_derivation(acc, n, dtype):
+    """Scale instance (wave 6): the CNF grammar S -> AT | AB, T -> AT | AB, A -> a, B -> b and the word a^(n-1) b: a parse
+    tree with about 3n nodes, deeper than the interpreter's recursion limit for n >= 340.  CPython order (the CYK table
+    alone takes seconds)."""
+    from gambatools.cfg_algorithms import cfg_derive_word
+    g = ('cfg', ('A', 'B', 'S', 'T'), ('a', 'b'), (('S', ('A', 'T')), ('S', ('A', 'B')), ('T', ('A', 'T')), ('T', ('A', 'B')), ('A', ('a',)), ('B', ('b',))), 'S')
+    G = cfg.to_lib(g)
+    w = 'a' * (n - 1) + 'b'
+    rp = {'fn': 'mc.props.c15:t_long_derivation', 'mode': 'plain', 'params': {'n': n, 'dtype': dtype}}
+    inst = {'grammar': cfg.show(g), 'word': 'a^%d b' % (n - 1), 'derivation_type': dtype}
+    acc.states += 1
+    ok, der = core.lib_call(acc, 'cfg_derive_word', inst, cfg_derive_word, G, w, dtype, repro=rp)
+    acc.transitions += 1
+    if ok:
+        acc.evals += 1
+        acc.validated += 1
+        acc.nontrivial += 1
+        msg = valid_derivation(g, w, der, dtype)
+        if msg:
+            acc.viol('cfg_derive_word', 'returned derivation is not a {} derivation of the word'.format(dtype), inst, repro=rp, observed={'reason': msg})
+        else:
+            acc.mx('max_derivation_steps', len(der) - 1)
+
+
 def check_cfg(acc, g, L, only=None, siblings=True):
     from gambatools.cfg_algorithms import cfg_derive_word
     if siblings and only is None:
@@ -403,6 +427,8 @@ def plan(tier, seed):
     add('pda', ['multichar'], 2, 1, 1, 1, opt=['A', 'B', 'AB'])
     add('pda', [2, 1, 2, 2], 2, 1, 8, 2 if q else 1)
     add('cfg', [4 if q else 5], 4, 1, 32)
+    tasks.insert(0, ('plain', 'mc.props.c15:t_long_derivation', {'n': 400, 'dtype': 'leftmost'}))
+    tasks.insert(1, ('plain', 'mc.props.c15:t_long_derivation', {'n': 400, 'dtype': 'rightmost'}))
     for front in (False, True):
         tasks.append(('plain', 'mc.props.c15:t_cyc', {'maxlen': 5, 'front': front, 'limit': 1000}))
     add('pda', [2, 1, 1, 2], 2, 0, 4, opt=['γ', 'Ω'])
@@ -417,4 +443,4 @@ def plan(tier, seed):
             'exhaustive': True,
             'rule': 'every automaton x word (accepted: run validated against the transition relation; rejected: NFA/PDA must return None) under CPython order and every execution with <= d set-order deviations, loop-iteration budget as termination oracle; every CNF grammar x generated non-empty word x derivation type validated step by step; non-trivial = automaton with epsilon moves accepting a short word / PDA word inside the closure premise / word of length >= 3',
             'assumptions': ['PDA: a run must be produced only when every epsilon closure on the way has at most {} configurations (limit set to {} for this check); outside that premise a None or an exhausted budget is recorded, not reported'.format(PDA_LIMIT, PDA_LIMIT),
-                            'DFA runs are checked for accepted words only', 'wave 5: coprime push/pop epsilon cycles (up to 5 + 5 states; accepting runs climb to 20 stack symbols with 12 states): a run is demanded when the library acceptance test accepts at the same limit (1000); stack symbols outside latin-1; all names equal but distinct str objects']}
+                            'DFA runs are checked for accepted words only', 'wave 5: coprime push/pop epsilon cycles (up to 5 + 5 states; accepting runs climb to 20 stack symbols with 12 states): a run is demanded when the library acceptance test accepts at the same limit (1000); stack symbols outside latin-1; all names equal but distinct str objects', 'wave 6: leftmost and rightmost derivation of a 400-letter word (799 steps, parse tree of 1200 nodes)']}
